@@ -152,8 +152,8 @@ def real_cases(ctx, rng):
         for pi, phase in enumerate(PHASES):
             cands = [c for c in allc if c["phase"] == phase and not c["finish_before_restart"]
                      and not (c["phase"] == "before-launch" and c["dag"] == "token-capacity")]
-            if phase == "mid-pidwrite":
-                cands = [c for c in cands if c["dag"] == "chain"]
+            if phase in ("mid-launch", "mid-pidwrite"):
+                cands = [c for c in cands if c["dag"] == "chain"]  # the token DAGs are masked by known findings here
             picked.append(cands[(ctx.seed * 7 + pi * 3 + rng.randrange(len(cands))) % len(cands)])
         fins = [c for c in allc if c["finish_before_restart"]]
         picked.append(fins[rng.randrange(len(fins))])
@@ -195,6 +195,11 @@ def real_monitor(case, o):
             key = f"second-run-hangs:{case['phase']}"
         fails.append((key, f"{tag}: the second run of the experiment does not finish (raised in aio_submit: {raised.strip() or 'nothing'}; "
                            f"token files at restart {o.get('token_files_at_restart')}; log {o.get('log')})"))
+        # what the log shows so far still must not contain a repeated body
+        for x in xs:
+            ivs = o["intervals"].get(str(x), [])
+            if len(ivs) > 1:
+                fails.append((f"body-not-exactly-once:{case['phase']}", f"{tag}: body of job {x} executed {len(ivs)} times over both runs: {[(iv[0], iv[3]) for iv in ivs]}"))
         return fails
     st = o["final2"].get("states")
     if o["final2"].get("error") or st != ["DONE"] * len(xs):
@@ -207,6 +212,10 @@ def real_monitor(case, o):
         ivs = o["intervals"].get(str(x), [])
         if len({iv[0] for iv in ivs}) > 1:
             fails.append((f"running-job-relaunched:{case['phase']}", f"{tag}: job {x} was running at the kill and a second process executed its body"))
+    tap = o.get("tap") or {}
+    for x in o.get("live_at_restart", []):
+        if x in tap.get("launched2", []):
+            fails.append((f"running-job-relaunched:{case['phase']}", f"{tag}: job {x} had a live process (pid file) when the experiment was run again and was launched again (launch log of the second run: {tap.get('launched2')})"))
     if o.get("token_files"):
         key = HANDLER_KEY if handler_race else f"token-files-left:{case['phase']}"
         fails.append((key, f"{tag}: token directory not empty after the second run: {o['token_files']} (thread errors: {o.get('thread_errors2')})"))
@@ -295,10 +304,15 @@ def real_part(ctx):
         xs = [j["x"] for j in case["jobs"]]
         model = {"final": last["futures"], "bodies": [d["bodies"] for d in last["dirs"]], "succ": [d["succ"] for d in last["dirs"]],
                  "adopted": sorted(x for x, a in zip(xs, last["adopted"]) if a)}
+        tapl = (o.get("tap") or {}).get("launched2")
+        if tapl is not None and (o.get("tap") or {}).get("launched1") is not None and ((o.get("tap") or {}).get("launched1") or tapl):
+            model["launched2"] = sorted(x for x, n in zip(xs, last["launches"]) if n > 0)
         survivors = sorted(o.get("live_at_restart", []))
         real = {"final": (o["final2"] or {}).get("states"), "bodies": [len(o["intervals"].get(str(x), [])) for x in xs],
                 "succ": [sum(1 for iv in o["intervals"].get(str(x), []) if iv[3] == "end") for x in xs],
                 "adopted": survivors}
+        if "launched2" in model:
+            real["launched2"] = sorted(tapl)
         tapa = o.get("tap", {}).get("adopted2")
         if model != real:
             ctx.disagree({"real": case, "log": o.get("log"), "tap": o.get("tap")}, model, real,
